@@ -125,6 +125,13 @@ bool h_named(const std::string &name, Case &c) {
     CHECK(c, hwloc_get_nbobjs_by_type(t, HWLOC_OBJ_GROUP) == 0, "no_grouping", "%d Groups were created although NO_DISTANCES disables grouping (and Groups are filtered out)", hwloc_get_nbobjs_by_type(t, HWLOC_OBJ_GROUP));
     require_wf(c, t, "after add_commit"); hwloc_topology_destroy(t); return true;
   }
+  if (name == "F-C02-i") {   // restrict merges/removes Group levels but did not renumber attr->group.depth (an XML reload does)
+    c.desc("synthetic numa:3(memory=512MB) group:2 l2:2 l1i:1 pu:2, all types KEEP_STRUCTURE; restrict({2,4,6}, REMOVE_CPULESS|ADAPT_MISC); the Group depths must be what an XML reload computes");
+    hwloc_topology_t t; hwloc_topology_init(&t); hwloc_topology_set_all_types_filter(t, HWLOC_TYPE_FILTER_KEEP_STRUCTURE); hwloc_topology_set_synthetic(t, "numa:3(memory=512MB) group:2 l2:2(size=12582912) l1i:1 pu:2"); CHECK(c, hwloc_topology_load(t) == 0, "named_setup", "load failed");
+    hwloc_bitmap_t s = bm("2,4,6"); CHECK(c, hwloc_topology_restrict(t, s, HWLOC_RESTRICT_FLAG_REMOVE_CPULESS | HWLOC_RESTRICT_FLAG_ADAPT_MISC) == 0, "named_setup", "restrict failed"); hwloc_bitmap_free(s); require_wf(c, t, "after restrict");
+    std::string x = export_xml(t, 0); hwloc_topology_t n; hwloc_topology_init(&n); hwloc_topology_set_all_types_filter(n, HWLOC_TYPE_FILTER_KEEP_ALL); hwloc_topology_set_xmlbuffer(n, x.c_str(), (int)x.size() + 1); CHECK(c, hwloc_topology_load(n) == 0, "named_setup", "reload failed");
+    std::string df = first_diff(dump_topology(t, DUMP_GP), dump_topology(n, DUMP_GP)); CHECK(c, df.empty(), "group_depth_after_restrict", "the topology differs from its XML reload after restrict: %s", df.c_str()); hwloc_topology_destroy(n); hwloc_topology_destroy(t); return true;
+  }
   if (name == "F-C02-e") {   // Group inserted above an object with equal cpuset that owns memory children: stale total_memory
     c.desc("synthetic pack:2 l2:2 [numa] core:1 pu:1; insert dont_merge Group with the cpuset of L2#0");
     hwloc_topology_t t = load_syn("pack:2 l2:2 [numa] core:1 pu:1"); hwloc_obj_t l2 = hwloc_get_obj_by_type(t, HWLOC_OBJ_L2CACHE, 0);
